@@ -367,6 +367,16 @@ func c19(r *eng.Run) {
 			}
 		}
 	}
+	// the shared hard-number and hard-string pools (bare, as array element, as member value)
+	for _, x := range hardNumbers() {
+		addF(x)
+		addF("[" + x + "]")
+	}
+	for _, x := range hardStrings() {
+		add([]byte(x))
+		add([]byte(x[1 : len(x)-1]))
+		add([]byte(`{"k":` + x + `}`))
+	}
 	r.Set("node_sets", map[string]int{"exploration_nodes": bfsNodes, "documents_and_large": len(nodes) - bfsNodes - nFloat, "float_literals": nFloat})
 
 	old := debug.SetGCPercent(-1)
